@@ -43,6 +43,10 @@ pub enum Op {
     /// receiver assembles an ACK for `largest` = the `sel`-th largest tracked received pn, into a
     /// frame of at most `capacity` bytes (0 = ample), carried in its next packet
     GenAck { sel: u8, capacity: u16, fate: Fate },
+    /// a long one-way run: `n` packets that carry nothing to retransmit (ACK-only), none of which reaches the peer
+    /// and none of which is ever acknowledged, while duplicates of an old ACK keep arriving (the journal rotates);
+    /// the unacknowledged span grows beyond what two bytes can express
+    TrivialBurst { n: u32 },
     /// deliver item `idx % len` of the ack channel to the sender
     DeliverAck { idx: u16 },
     /// the sender's loss detector reports an in-flight packet lost
@@ -244,6 +248,15 @@ impl Engine for JournalSim {
             };
             ops.push(op);
         }
+        if r.one_in(400) {
+            // somewhere in the second half, then a few more ordinary packets
+            let at = ops.len() / 2 + r.usize_below(ops.len() / 2 + 1);
+            ops.insert(at.min(ops.len()), Op::TrivialBurst { n: *r.pick(&[33_000u32, 40_000, 70_000]) });
+            for _ in 0..4 {
+                ops.push(Op::Send { kind: SendKind::Frames(1), ack_eliciting: true, retran_ms: 100, expire_ms: 10_000, fate: Fate::Deliver });
+                ops.push(Op::DeliverData { idx: 0 });
+            }
+        }
         Case {
             max_ack_delay_ms: if r.one_in(3) { None } else { Some(*r.pick(&[0u32, 1, 25, 200])) },
             pto_ms: *r.pick(&[1u32, 30, 100, 1000]),
@@ -394,6 +407,28 @@ async fn run(case: &Case) -> Outcome {
                     }
                 }
             }
+            Op::TrivialBurst { n } => {
+                out.stats.bump("probe.trivial_burst");
+                faults += 1;
+                for k in 0..*n {
+                    let mut guard = sent.new_packet();
+                    let (pn, _enc) = guard.pn();
+                    guard.record_trivial();
+                    guard.build_trivial();
+                    if let Some(prev) = last_built {
+                        if pn <= prev {
+                            out.violate(if pn == prev { "pn-reuse" } else { "pn-not-increasing" }, "", format!("packet number {pn} after {prev}"), step);
+                            break;
+                        }
+                    }
+                    last_built = Some(pn);
+                    if k % 1024 == 1023 {
+                        // a duplicate of an old ACK arrives: the journal rotates, nothing is newly acknowledged
+                        drop(sent.rotate());
+                    }
+                }
+                th.add(9 << 48 | *n as u64);
+            }
             Op::Advance { ms } => {
                 tokio::time::advance(Duration::from_millis(*ms as u64)).await;
                 out.sim_seconds += *ms as f64 / 1000.0;
@@ -419,6 +454,13 @@ async fn run(case: &Case) -> Outcome {
                 let in_window = item.pn + hwin > expected && item.pn <= expected + hwin;
                 match res {
                     Ok(p) => {
+                        if already && p != item.pn {
+                            // a stale duplicate from far behind the receiver's window reconstructs to some other, never
+                            // received number: the packet then fails authentication (the number is part of the nonce)
+                            // and is dropped — nothing is accepted twice
+                            out.stats.bump("probe.stale_duplicate_decodes_elsewhere");
+                            continue;
+                        }
                         if already {
                             out.violate("pn-accepted-twice", "", format!("packet number {} accepted a second time (decoded {p})", item.pn), step);
                         } else if p != item.pn {
@@ -722,6 +764,32 @@ async fn run(case: &Case) -> Outcome {
 
     // C07 second tier: the codec is stateless, so a simulated (pn, largest_acked, expected) triple shifted
     // by a base is a legitimate history of a longer-lived connection.
+    // Shifts that put a boundary of the truncated number's width (2^16, 2^24, 2^32 ...) between the receiver's expected
+    // number and the packet: the aligned bases below never do (short histories live far from any boundary).
+    if !out.failed() {
+        'outer: for (i, (pn, la, exp)) in triples.iter().enumerate() {
+            let (lo, hi) = (*pn.min(exp), *pn.max(exp));
+            if hi == lo {
+                continue;
+            }
+            let nbits = 8 * PacketNumber::encode(*pn, *la).size() as u32;
+            for m in [1u64, 5, 1 << 20] {
+                let Some(boundary) = m.checked_shl(nbits).filter(|b| *b < (1 << 61)) else { continue };
+                let d = (i as u64 * 7 + m) % (hi - lo);
+                // lo + base < boundary <= hi + base
+                let Some(base) = boundary.checked_sub(lo + 1 + d) else { continue };
+                if base < *la {
+                    // la + base stays non-negative by construction; keep la below the boundary region sane
+                }
+                let dec = PacketNumber::encode(pn + base, la + base).decode(exp + base);
+                out.stats.bump("boundary_crossing_triples");
+                if dec != pn + base {
+                    out.violate("decode-mismatch", "boundary", format!("pn {} (largest_acked {}, expected {}) decoded to {dec}: the {nbits}-bit boundary {boundary} lies between expected and pn", pn + base, la + base, exp + base), i as u64);
+                    break 'outer;
+                }
+            }
+        }
+    }
     if !out.failed() {
         const BASES: [u64; 7] = [1 << 8, 1 << 16, 1 << 24, 1 << 31, 1 << 32, 1 << 48, (1 << 62) - (1 << 17)];
         for (i, (pn, la, exp)) in triples.iter().enumerate() {
